@@ -132,7 +132,8 @@ Qed.
 
 Definition erased (i : Z) (a b : sst) : Prop :=
   zwheel a = zwheel b /\ zclock a = zclock b /\ ztt a = ztt b /\ znext a = znext b /\ zreq a = zreq b /\
-  zrefer a = unrefer (zrefer b) i /\ zpending a = filter (keep i) (zpending b) /\ i <= znext b.
+  zrefer a = unrefer (zrefer b) i /\ zpending a = filter (keep i) (zpending b) /\ i <= znext b /\
+  0 <= znext b /\ Forall (fun x => x <= znext b) (zrefer b).
 
 (* what the two worlds must agree on for the other timers *)
 Definition oth (i : Z) (o : op) (x y : out) : Prop :=
@@ -153,17 +154,29 @@ Proof. unfold unrefer. apply filter_app. Qed.
 Lemma unrefer_comm r i j : unrefer (unrefer r i) j = unrefer (unrefer r j) i.
 Proof. unfold unrefer. apply filter_comm. Qed.
 
+Lemma unrefer_le r i (bound : Z) : Forall (fun x => x <= bound) r -> Forall (fun x => x <= bound) (unrefer r i).
+Proof.
+  intros H. apply Forall_forall. intros x Hx. unfold unrefer in Hx. apply filter_In in Hx.
+  rewrite Forall_forall in H. apply H. tauto.
+Qed.
+
 Lemma sstep_erased i o a b :
+  znext b + 1 < 2 ^ 63 ->
   erased i a b -> erased i (fst (sstep a o)) (fst (sstep b o)) /\ oth i o (snd (sstep a o)) (snd (sstep b o)).
 Proof.
-  intros [Ew [Ec [Et [En [Eq [Er [Ep Hi]]]]]]].
+  intros Hroom [Ew [Ec [Et [En [Eq [Er [Ep [Hi [H0 Hle]]]]]]]]].
+  assert (Hi' : i <= znext b /\ 0 <= znext b /\ Forall (fun x => x <= znext b) (zrefer b)) by tauto.
   assert (Hsched : forall d p, erased i (fst (sschedule a d p)) (fst (sschedule b d p)) /\
                                exists bl id, snd (sschedule a d p) = OId bl id /\ snd (sschedule b d p) = OId bl id).
-  { intros d p. unfold sschedule. cbn [fst snd]. rewrite Ew, Ec, En, Eq. split; [|eexists _, _; split; reflexivity].
+  { intros d p. unfold sschedule. cbn [fst snd]. rewrite Ew, Ec, En, Eq, Er.
+    rewrite (alloc_fresh (znext b) (zrefer b)) by assumption.
+    rewrite (alloc_fresh (znext b) (unrefer (zrefer b) i)) by (try assumption; apply unrefer_le; exact Hle).
+    split; [|eexists _, _; split; reflexivity].
     unfold erased. cbn [zwheel zclock ztt znext zreq zrefer zpending]. repeat (split; [assumption || reflexivity|]).
-    split; [|split; [exact Ep|lia]].
-    rewrite Er, unrefer_app. f_equal. unfold unrefer. cbn [filter].
-    destruct (Z.eqb_spec (znext b + 1) i); [lia|reflexivity]. }
+    split; [|split; [exact Ep|split; [lia|split; [lia|]]]].
+    - rewrite unrefer_app. f_equal. unfold unrefer. cbn [filter].
+      destruct (Z.eqb_spec (znext b + 1) i); [lia|reflexivity].
+    - apply Forall_app. split; [eapply Forall_impl; [|exact Hle]; cbn; intros; lia|constructor; [lia|constructor]]. }
   destruct o; cbn [sstep oth].
   - apply Hsched.
   - apply Hsched.
@@ -172,14 +185,14 @@ Proof.
     + rewrite mem_unrefer, Z.eqb_refl, andb_false_r. cbn [fst snd].
       destruct (mem i (zrefer b)) eqn:Hm; cbn [fst snd].
       * split; [|intros H; contradiction]. unfold erased. cbn [zwheel zclock ztt znext zreq zrefer zpending].
-        repeat (split; [assumption|]). split; [|split; [|exact Hi]].
+        repeat (split; [assumption|]). split; [|split; [|split; [exact Hi|split; [exact H0|apply unrefer_le; exact Hle]]]].
         -- rewrite Er. unfold unrefer. rewrite filter_filter'. apply filter_ext. intros x. rewrite andb_diag. reflexivity.
         -- rewrite Ep. fold (keep i). rewrite filter_filter'. apply filter_ext. intros x. rewrite andb_diag. reflexivity.
       * split; [unfold erased; tauto|intros H; contradiction].
     + rewrite mem_unrefer_other by exact Hne. destruct (mem id (zrefer b)) eqn:Hm; cbn [fst snd].
       * split; [|intros _; eexists _, _, _; split; reflexivity].
         unfold erased. cbn [zwheel zclock ztt znext zreq zrefer zpending].
-        repeat (split; [assumption|]). split; [|split; [|exact Hi]].
+        repeat (split; [assumption|]). split; [|split; [|split; [exact Hi|split; [exact H0|apply unrefer_le; exact Hle]]]].
         -- apply unrefer_comm.
         -- rewrite Ep. fold (keep id) (keep i). apply filter_comm.
       * split; [unfold erased; tauto|intros _; eexists _, _, _; split; reflexivity].
@@ -190,7 +203,7 @@ Proof.
     rewrite Eq. destruct (zreq b) as [|n q] eqn:Eqb; cbn [fst snd].
     + split; [unfold erased; rewrite Eqb; tauto|exact I].
     + split; [|exact I]. unfold erased. cbn [zwheel zclock ztt znext zreq zrefer zpending].
-      repeat (split; [assumption || reflexivity|]). split; [|exact Hi].
+      repeat (split; [assumption || reflexivity|]). split; [|exact Hi'].
       rewrite Ew, Et, Er, Ep, mem_unrefer.
       set (n' := if zwheel b then mkNode (nid n) (ndl n + ztt b + nper n) (nper n) else n).
       assert (Hk : keep i n' = negb (nid n =? i)) by (unfold n', keep; destruct (zwheel b); reflexivity).
@@ -204,12 +217,19 @@ Proof.
     rewrite Ew, Ec, Et, Er, Ep. destruct (zwheel b).
     + pose proof (ticks_iter_erase i (Z.to_N (zclock b - ztt b)) (ztt b, zpending b, zrefer b, [])) as H.
       unfold erase_acc at 1 in H. cbn [filter] in H. rewrite H.
+      pose proof (ticks_iter_refer (Z.to_N (zclock b - ztt b)) (ztt b) (zpending b) (zrefer b) []) as [f Hf].
       destruct (N.iter (Z.to_N (zclock b - ztt b)) ticks_acc (ztt b, zpending b, zrefer b, [])) as [[[t P] r] o].
+      cbn [fst snd] in Hf. subst r.
       unfold erase_acc. cbn [fst snd]. split; [|eexists _, _; split; [reflexivity|split; reflexivity]].
-      unfold erased. cbn [zwheel zclock ztt znext zreq zrefer zpending]. tauto.
-    + rewrite spec_tick_erase. destruct (spec_tick (zclock b) (zpending b) (zrefer b)) as [[P r] o].
-      cbn [fst snd]. split; [|eexists _, _; split; [reflexivity|split; reflexivity]].
-      unfold erased. cbn [zwheel zclock ztt znext zreq zrefer zpending]. tauto.
+      unfold erased. cbn [zwheel zclock ztt znext zreq zrefer zpending].
+      repeat (split; [assumption || reflexivity|]).
+      apply Forall_forall. intros x Hx. apply filter_In in Hx. rewrite Forall_forall in Hle. apply Hle. tauto.
+    + rewrite spec_tick_erase. pose proof (spec_tick_refer (zclock b) (zpending b) (zrefer b)) as [f Hf].
+      destruct (spec_tick (zclock b) (zpending b) (zrefer b)) as [[P r] o].
+      cbn [fst snd] in *. subst r. split; [|eexists _, _; split; [reflexivity|split; reflexivity]].
+      unfold erased. cbn [zwheel zclock ztt znext zreq zrefer zpending].
+      repeat (split; [assumption || reflexivity|]).
+      apply Forall_forall. intros x Hx. apply filter_In in Hx. rewrite Forall_forall in Hle. apply Hle. tauto.
   - cbn [fst snd]. split; [unfold erased; tauto|exact I].
 Qed.
 
@@ -220,15 +240,37 @@ Fixpoint oth_all (i : Z) (ops : list op) (xs ys : list out) : Prop :=
   | _, _, _ => False
   end.
 
+Lemma sstep_next_le b o :
+  0 <= znext b -> Forall (fun x => x <= znext b) (zrefer b) -> znext b + 1 < 2 ^ 63 ->
+  znext b <= znext (fst (sstep b o)) <= znext b + 1.
+Proof.
+  intros H0 Hle Hroom. destruct o; cbn [sstep].
+  - unfold sschedule. cbn [fst znext]. rewrite alloc_fresh by assumption. lia.
+  - unfold sschedule. cbn [fst znext]. rewrite alloc_fresh by assumption. lia.
+  - destruct (mem id (zrefer b)); cbn [fst znext]; lia.
+  - cbn [fst]. lia.
+  - cbn [fst]. lia.
+  - destruct (zreq b); cbn [fst znext]; lia.
+  - destruct (0 <? zdels b); cbn [fst znext]; lia.
+  - cbn [fst znext]. lia.
+  - destruct (zwheel b).
+    + destruct (N.iter (Z.to_N (zclock b - ztt b)) ticks_acc (ztt b, zpending b, zrefer b, [])) as [[[t P] r] o]. cbn [fst znext]. lia.
+    + destruct (spec_tick (zclock b) (zpending b) (zrefer b)) as [[P r] o]. cbn [fst znext]. lia.
+  - cbn [fst]. lia.
+Qed.
+
 Lemma srun_erased i ops : forall a b,
-  erased i a b ->
+  erased i a b -> znext b + Z.of_nat (length ops) < 2 ^ 63 - 1 ->
   erased i (fst (srun a ops)) (fst (srun b ops)) /\ oth_all i ops (snd (srun a ops)) (snd (srun b ops)).
 Proof.
-  induction ops as [|o ops IH]; intros a b He; cbn [srun].
+  induction ops as [|o ops IH]; intros a b He Hf; cbn [srun].
   - cbn. tauto.
-  - destruct (sstep_erased i o a b He) as [He1 Ho].
+  - cbn [length] in Hf. assert (Hroom : znext b + 1 < 2 ^ 63) by lia.
+    destruct (sstep_erased i o a b Hroom He) as [He1 Ho].
+    assert (Hn : znext b <= znext (fst (sstep b o)) <= znext b + 1).
+    { destruct He as [_ [_ [_ [_ [_ [_ [_ [_ [H0 Hle]]]]]]]]]. apply sstep_next_le; assumption. }
     destruct (sstep a o) as [a1 x]. destruct (sstep b o) as [b1 y]. cbn [fst snd] in *.
-    destruct (IH a1 b1 He1) as [He2 Hos].
+    destruct (IH a1 b1 He1) as [He2 Hos]; [lia|].
     destruct (srun a1 ops) as [a2 xs]. destruct (srun b1 ops) as [b2 ys]. cbn [fst snd] in *.
     split; [exact He2|split; assumption].
 Qed.
@@ -290,18 +332,23 @@ Qed.
    IsScheduled answers for every other id, and each tick step delivers the same multiset
    of (id, due) pairs apart from those of i *)
 Theorem others_undisturbed m i ops :
-  reachable m -> mem i (srefer m) = true ->
+  reachable m -> fits m ops -> mem i (srefer m) = true ->
   oth_allc i ops (snd (run (fst (step m (Cancel i))) ops)) (snd (run m ops)).
 Proof.
-  intros Hre Hin. destruct (reachable_minv m Hre) as [Hm [z Hr]].
-  destruct (step_sim m z (Cancel i) Hm Hr) as [Hm1 [Hr1 _]].
+  intros Hre Hf Hin. destruct (reachable_minv m Hre) as [Hm [z Hr]].
+  destruct (cancel_sim m z i Hm Hr) as [Hm1 [Hr1 _]].
+  assert (Hf1 : fits (fst (step m (Cancel i))) ops).
+  { unfold fits in *. cbn [step]. rewrite Hin. cbn [fst snext]. exact Hf. }
+  pose proof Hr as [_ [Rr [Rn _]]].
   assert (He : erased i (fst (sstep z (Cancel i))) z).
-  { pose proof Hr as [_ [Rr [Rn _]]]. cbn [sstep]. rewrite Rr, Hin. cbn [fst]. unfold erased.
+  { cbn [sstep]. rewrite Rr, Hin. cbn [fst]. unfold erased.
     cbn [zwheel zclock ztt znext zreq zrefer zpending]. repeat (split; [reflexivity|]). rewrite Rr.
     split; [reflexivity|]. split; [reflexivity|].
-    pose proof (mi_refer m Hm) as Mr. rewrite Forall_forall in Mr. apply mem_In in Hin. specialize (Mr _ Hin). lia. }
-  destruct (run_refines ops _ _ Hm1 Hr1) as [_ [_ Ha]].
-  destruct (run_refines ops _ _ Hm Hr) as [_ [_ Hb]].
-  destruct (srun_erased i ops _ _ He) as [_ Ho].
+    pose proof (mi_refer m Hm) as Mr. pose proof (mi_next m Hm) as Mn. rewrite Rn.
+    split; [rewrite Forall_forall in Mr; apply mem_In in Hin; specialize (Mr _ Hin); lia|].
+    split; [exact Mn|]. eapply Forall_impl; [|exact Mr]. cbn. intros; lia. }
+  destruct (run_refines ops _ _ Hm1 Hr1 Hf1) as [_ [_ Ha]].
+  destruct (run_refines ops _ _ Hm Hr Hf) as [_ [_ Hb]].
+  destruct (srun_erased i ops _ _ He) as [_ Ho]; [rewrite Rn; exact Hf|].
   eapply oth_all_lift; eassumption.
 Qed.
